@@ -43,13 +43,19 @@ def gen_case(rng, tier, idx):
         from ..runnerdrive import gen_runner_case
 
         return gen_runner_case(rng, tier, profile="matching", style="aggressive")
+    if idx % 10 == 3:
+        from ..direct import gen_both_sides_market_history
+
+        c = gen_both_sides_market_history(rng, tier)
+        c["drive"] = "direct"
+        return c
     prof = {}
     if idx % 10 == 4:
         # decimal ticks, few levels, frequent requests that are refused by design (resubmissions of resting
         # orders among them) between the normal ones
         prof.update({"tick": rng.choice([0.1, 0.01, 0.1, 0.001]), "base": rng.choice([3, 6, 12, 29, 100]),
                      "max_levels": 4, "p_refused": 0.2, "ttl_menu": [None, None, 5, 30],
-                     "mode": rng.choice(["batch", "mixed", "mixed"])})
+                     "mode": rng.choice(["batch", "mixed", "mixed"]), "p_market": rng.choice([0.3, 0.5])})
     r = rng.random()
     if r < 0.35:
         prof["p_market"] = rng.choice([0.2, 0.3, 0.5])
